@@ -252,3 +252,96 @@ func vK15gHoistedImports() {
 	}
 	vReach("end")
 }
+
+// K08a-exports: the order of cross-chunk export items (which fixes the export
+// aliases and the order of the export clause) is independent of raw source
+// indices and of map iteration order.
+func hExportOrderRun(swap bool) []string {
+	c := hCtx(0, 3)
+	rawA, rawB := uint32(1), uint32(2)
+	if swap {
+		rawA, rawB = 2, 1
+	}
+	c.graph.StableSourceIndices = make([]uint32, 3)
+	c.graph.StableSourceIndices[rawA] = 1
+	c.graph.StableSourceIndices[rawB] = 2
+	// file A exports symbols a0, a1; file B exports b0
+	exports := map[ast.Ref]bool{
+		{SourceIndex: rawA, InnerIndex: 0}: true,
+		{SourceIndex: rawA, InnerIndex: 1}: true,
+		{SourceIndex: rawB, InnerIndex: 0}: true,
+	}
+	vSymMapOrder(true)
+	items := c.sortedCrossChunkExportItems(exports)
+	vSymMapOrder(false)
+	var out []string
+	for _, it := range items {
+		f := "A"
+		if it.Ref.SourceIndex == rawB {
+			f = "B"
+		}
+		out = append(out, f+string(rune('0'+it.Ref.InnerIndex)))
+	}
+	return out
+}
+
+func vK08aExports() {
+	x := hExportOrderRun(false)
+	y := hExportOrderRun(true)
+	vAssert(len(x) == 3 && len(y) == 3, "every exported symbol is listed once")
+	for i := range x {
+		vAssert(x[i] == y[i], "the order of cross-chunk exports does not depend on raw source indices or map iteration order")
+	}
+	vAssert(x[0] == "A0" && x[1] == "A1" && x[2] == "B0", "cross-chunk exports are ordered by stable source index, then by symbol index")
+	vReach("end")
+}
+
+// K08a-minify: minified names in a chunk are independent of raw source
+// indices and of map iteration order (symbol use counts are accumulated over
+// maps and sorted by count, then by stable source index).
+func hMinifyRun(swap bool, cntA, cntB uint32) (string, string) {
+	c := hCtx(1, 3)
+	c.options.MinifyIdentifiers = true
+	rawA, rawB := uint32(1), uint32(2)
+	if swap {
+		rawA, rawB = 2, 1
+	}
+	syms := ast.NewSymbolMap(3)
+	syms.SymbolsForSource[0] = []ast.Symbol{}
+	syms.SymbolsForSource[rawA] = []ast.Symbol{{OriginalName: "alpha", Link: ast.InvalidRef, Kind: ast.SymbolHoisted}}
+	syms.SymbolsForSource[rawB] = []ast.Symbol{{OriginalName: "beta", Link: ast.InvalidRef, Kind: ast.SymbolHoisted}}
+	c.graph.Symbols = syms
+	refA := ast.Ref{SourceIndex: rawA, InnerIndex: 0}
+	refB := ast.Ref{SourceIndex: rawB, InnerIndex: 0}
+	c.graph.Files[0].InputFile.Repr = &graph.JSRepr{AST: js_ast.AST{ModuleScope: &js_ast.Scope{Members: map[string]js_ast.ScopeMember{}}}}
+	mk := func(raw uint32, own ast.Ref, name string, other ast.Ref, cnt uint32) {
+		repr := &graph.JSRepr{}
+		repr.AST.ModuleScope = &js_ast.Scope{Members: map[string]js_ast.ScopeMember{name: {Ref: own}}}
+		repr.AST.Parts = []js_ast.Part{{IsLive: true,
+			DeclaredSymbols: []js_ast.DeclaredSymbol{{Ref: own, IsTopLevel: true}},
+			// each file also uses the other file's symbol (a map with two keys)
+			SymbolUses: map[ast.Ref]js_ast.SymbolUse{own: {CountEstimate: cnt}, other: {CountEstimate: 1}}}}
+		c.graph.Files[raw].InputFile.Repr = repr
+	}
+	mk(rawA, refA, "alpha", refB, cntA)
+	mk(rawB, refB, "beta", refA, cntB)
+	c.graph.ReachableFiles = []uint32{0, rawA, rawB}
+	c.graph.StableSourceIndices = make([]uint32, 3)
+	c.graph.StableSourceIndices[rawA] = 1
+	c.graph.StableSourceIndices[rawB] = 2
+	chunk := &c.chunks[0]
+	chunk.chunkRepr = &chunkReprJS{importsFromOtherChunks: map[uint32]crossChunkImportItemArray{}}
+	vSymMapOrder(true)
+	r := c.renameSymbolsInChunk(chunk, []uint32{rawA, rawB}, nil)
+	vSymMapOrder(false)
+	return r.NameForSymbol(refA), r.NameForSymbol(refB)
+}
+
+func vK08aMinify() {
+	cntA, cntB := uint32(vU8()), uint32(vU8())
+	a1, b1 := hMinifyRun(false, cntA, cntB)
+	a2, b2 := hMinifyRun(true, cntA, cntB)
+	vAssert(a1 != "" && a1 != b1, "both symbols get distinct minified names")
+	vAssert(a1 == a2 && b1 == b2, "minified names do not depend on raw source indices or on map iteration order (ties in use counts are broken by stable indices)")
+	vReach("end")
+}
